@@ -65,10 +65,16 @@ def realise(plan, variant, magpy):
             modeA = mode
         else:
             modeB = mode
-    A = magpy.misc.CustomSource(field_func=ff_factory(1, fail_on=1 if modeA else None, mode=modeA), position=mkpath(lens["o1"]))
-    B = magpy.misc.CustomSource(field_func=ff_factory(2, fail_on=1 if modeB else None, mode=modeB), position=mkpath(lens["o2"]) + 5)
+    from scipy.spatial.transform import Rotation as R
+
+    def mkori(n):
+        # generic (non-lattice) orientations: their quaternions are NOT fixed points of re-normalisation
+        q = np.array([[r.gauss(0, 1) for _ in range(4)] for _ in range(n)])
+        return R.from_quat(q / np.linalg.norm(q, axis=1)[:, None])
+    A = magpy.misc.CustomSource(field_func=ff_factory(1, fail_on=1 if modeA else None, mode=modeA), position=mkpath(lens["o1"]), orientation=mkori(lens["o1"]))
+    B = magpy.misc.CustomSource(field_func=ff_factory(2, fail_on=1 if modeB else None, mode=modeB), position=mkpath(lens["o2"]) + 5, orientation=mkori(lens["o2"]))
     pix = np.array([[1.0, 2.0, 3.0], [0.5, -1.0, 2.0], [3.0, 3.0, 1.0]])
-    S = magpy.Sensor(pixel=pix.copy(), position=mkpath(lens["o3"]) - 3)
+    S = magpy.Sensor(pixel=pix.copy(), position=mkpath(lens["o3"]) - 3, orientation=mkori(lens["o3"]))
     sources = [A, B]
     sensors = [S]
     extra = []
@@ -205,13 +211,16 @@ def plain_calls(args):
                     call = lambda: magpy.core.magnet_cuboid_Bfield(observers=obs, dimensions=dim, polarizations=pol)
                 elif kind == 3:     # object interface: observers array, object attribute arrays
                     obs = np.array([[[r.uniform(-3, 3) for _ in range(3)] for _ in range(2)] for _ in range(2)])
-                    src = magpy.magnet.Cylinder(dimension=(1, 2), polarization=(0.1, 0.2, 0.3), position=np.array([[0, 0, 0], [1, 0, 0.0]]))
+                    from scipy.spatial.transform import Rotation as R
+                    src = magpy.magnet.Cylinder(dimension=(1, 2), polarization=(0.1, 0.2, 0.3), position=np.array([[0, 0, 0], [1, 0, 0.0]]),
+                                                orientation=R.from_rotvec([(0.1, 0.2, 0.3), (0.3, -0.1, 0.2)]))
                     arrays = [obs]
                     objs = [src]
                     what = "src.getH(array)"
                     call = lambda: src.getH(obs)
                 elif kind == 4:     # collection with internal sensor, sensor has longer path
-                    s1 = magpy.magnet.Sphere(diameter=1, polarization=(1, 2, 3))
+                    from scipy.spatial.transform import Rotation as R
+                    s1 = magpy.magnet.Sphere(diameter=1, polarization=(1, 2, 3), orientation=R.from_rotvec((r.uniform(-1, 1), r.uniform(-1, 1), r.uniform(-1, 1))))
                     s2 = magpy.current.Circle(diameter=2, current=1.5, position=np.array([[0, 0, 1], [0, 0, 2.0]]))
                     sens = magpy.Sensor(pixel=np.array([[0.1, 0.2, 0.3], [1, 1, 1.0]]), position=np.array([[2, 0, 0], [2, 1, 0], [2, 2, 0.0]]))
                     coll = magpy.Collection(s1, s2, sens)
